@@ -11,7 +11,8 @@
 (*   trace = [fam, par, nc, init, ev]                                        *)
 (*   init  = override maps the history starts from (all unset for recorded   *)
 (*           histories; the spec state for replayed edges, see the driver)   *)
-(*   event = [k, set, n, a, res, eff, gate, used]                            *)
+(*   event = [k, set, n, a, res, eff, gate, used]; observed values (eff) are  *)
+(*           sent in the compact text form Show(v), "skip:0" = not observed   *)
 (*                                                                         *)
 (* Steps are total: S' = Apply(S, op) whatever was observed; the verdict     *)
 (* names the first failing clause and the event index.                       *)
@@ -60,7 +61,7 @@ ApplyH(kind, H, op) ==
 
 \* a value the driver did not observe at this step is sent as "skip": not observed, not judged
 Diff(e, S2, set) ==
-  {n \in Nodes(T) : e.eff[set][n].t # "skip" /\ e.eff[set][n] # ObsEff(T, Fam, S2, set, n)}
+  {n \in Nodes(T) : e.eff[set][n] # "skip:0" /\ e.eff[set][n] # Show(ObsEff(T, Fam, S2, set, n))}
 GateDiff(e, S2) == {n \in Nodes(T) : e.gate[n] # "skip" /\ e.gate[n] # Gate(T, S2, n)}
 MatchesAll(e, S2) == (\A set \in Settings : Diff(e, S2, set) = {}) /\ GateDiff(e, S2) = {}
 
